@@ -428,26 +428,8 @@ func checkRequestRules(c *core.Ctx, l *core.Ledger) {
 		l.Unk("REQUEST", "addService", "", "not found")
 	}
 	// generateModule: modules are registered (Walk(addModules)) before root services are added
+	checkModulesFirst(c, l, "REQUEST", "generateModule.modules-first")
 	if f := c.SSAFunc(c.LookupFunc("gen", "generateModule")); f != nil {
-		var walk, addRoot ssa.Instruction
-		core.Instrs(f, func(in ssa.Instruction) {
-			if call, ok := in.(ssa.CallInstruction); ok {
-				if cal := call.Common().StaticCallee(); cal != nil {
-					if cal.Name() == "Walk" && walk == nil {
-						walk = in
-					}
-					if cal.Name() == "AddRootService" {
-						addRoot = in
-					}
-				}
-			}
-		})
-		ok := walk != nil && addRoot != nil
-		if ok {
-			found, _ := core.PathFromEntryAvoiding(f, func(in ssa.Instruction) bool { return in == walk }, func(in ssa.Instruction) bool { return in == addRoot })
-			ok = !found
-		}
-		l.Check(ok, "REQUEST", "generateModule.modules-first", c.Rel(f.Pos()), "every module reachable from the file is registered before its services are added as roots", "root services can be added before the modules they refer to are registered")
 		// root services are exactly m.Services of the module being generated
 		rootOK := false
 		core.Instrs(f, func(in ssa.Instruction) {
@@ -635,4 +617,60 @@ func checkHelperTemplates(c *core.Ctx, l *core.Ledger) {
 		}
 	}
 	l.Floor("HELPERS", 8)
+}
+
+// checkModulesFirst: generateModule registers every module of its own include
+// tree (a Walk whose callback calls AddModule on the visited module) before it
+// adds any root service. Registration is then self-contained: whether a
+// service's ancestors are known does not depend on which other modules were
+// generated earlier (the order of compile.Module.Walk is a map order).
+func checkModulesFirst(c *core.Ctx, l *core.Ledger, rule, key string) {
+	f := c.SSAFunc(c.LookupFunc("gen", "generateModule"))
+	if f == nil {
+		l.Unk(rule, key, "", "generateModule not found")
+		return
+	}
+	var walk, addRoot ssa.Instruction
+	cbOK := false
+	core.Instrs(f, func(in ssa.Instruction) {
+		call, ok := in.(ssa.CallInstruction)
+		if !ok {
+			return
+		}
+		cal := call.Common().StaticCallee()
+		if cal == nil {
+			return
+		}
+		if cal.Name() == "Walk" && recvNamed(cal) == "Module" && core.Sym(call.Common().Args[0]) == "$0" {
+			// the callback registers the module it is given
+			var cb *ssa.Function
+			switch x := call.Common().Args[1].(type) {
+			case *ssa.MakeClosure:
+				cb = x.Fn.(*ssa.Function)
+			case *ssa.Function:
+				cb = x
+			}
+			if cb != nil {
+				for _, ac := range callsIn(cb, "AddModule") {
+					args := ac.(ssa.CallInstruction).Common().Args
+					if s := core.Sym(args[len(args)-1]); s == "$0.ThriftPath" {
+						cbOK = true
+					}
+				}
+			}
+			if walk == nil && cbOK {
+				walk = in
+			}
+		}
+		if cal.Name() == "AddRootService" {
+			addRoot = in
+		}
+	})
+	ok := walk != nil && addRoot != nil && cbOK
+	if ok {
+		// the walk succeeded on every path to AddRootService
+		okE := successEdges(f, func(call *ssa.Call) bool { return ssa.Instruction(call) == walk })
+		ok = len(okE) > 0 && core.AllPathsThroughEdges(f, addRoot.Block(), okE)
+	}
+	l.Check(ok, rule, key, c.Rel(f.Pos()), "every module of the file's own include tree is registered (Walk over the module with an AddModule callback, succeeded) before its services are added as roots", "root services can be added before every module they may refer to is registered by this same call: whether generation succeeds then depends on which other modules were generated earlier")
 }
